@@ -142,16 +142,25 @@ theorem call_add_str (x y : Val) (a b : String) (hx : Rep x (.str a)) (hy : Rep 
     Except.bind, StateT.pure]
   simp [runtimeAdd, convertRaw_rep hx, convertRaw_rep hy, emb, ofOpt, pure, StateT.pure, Except.pure, objStr_S']
 
-theorem arith_rep (f : Rat → Rat → Option Rat) (x y : Val) (a b : Rat) (hx : Rep x (.num a)) (hy : Rep y (.num b)) :
-    arith f x y = (f a b).map Val.N := by
-  cases hx <;> cases hy <;> simp [arith, Val.kind, Val.num?]
+/-- the four numeric kind pairs are in the matrix read from runtime.go, for every arithmetic helper -/
+theorem hasCase_rep (x y : Val) (a b : Rat) (hx : Rep x (.num a)) (hy : Rep y (.num b)) :
+    hasCase "runtimeSub" "-" x y = true ∧ hasCase "runtimeMul" "*" x y = true ∧
+    hasCase "runtimeQuo" "/" x y = true ∧ hasCase "runtimeRem" "%" x y = true := by
+  cases hx <;> cases hy <;> simp only [hasCase, kindName, Val.kind] <;> decide
+
+theorem arith_rep (fn op : String) (f : Rat → Rat → Option Rat) (x y : Val) (a b : Rat)
+    (hc : hasCase fn op x y = true) (hx : Rep x (.num a)) (hy : Rep y (.num b)) :
+    arith fn op f x y = (f a b).map Val.N := by
+  unfold arith
+  rw [hc]
+  cases hx <;> cases hy <;> simp [Val.num?]
 
 theorem call_sub (x y : Val) (a b : Rat) (hx : Rep x (.num a)) (hy : Rep y (.num b)) (st : St) :
     callBuiltin "__op__sub" [x, y] st = .ok (.N (a - b), st) := by
   have hi : helperImpl "__op__sub" = some "runtimeSub" := by decide
   simp only [callBuiltin, hi, bind, StateT.bind, getHeap, get, getThe, MonadStateOf.get, StateT.get, pure, Except.pure,
     Except.bind, StateT.pure]
-  simp [runtimeSub, arith_rep _ x y a b hx hy, ofOpt, pure, StateT.pure, Except.pure]
+  simp [runtimeSub, arith_rep _ _ _ x y a b (hasCase_rep x y a b hx hy).1 hx hy, ofOpt, pure, StateT.pure, Except.pure]
 
 theorem call_neg (x : Val) (a : Rat) (hx : Rep x (.num a)) (st : St) :
     callBuiltin "__op__sub" [x] st = .ok (.N (-a), st) := by
@@ -160,25 +169,27 @@ theorem call_neg (x : Val) (a : Rat) (hx : Rep x (.num a)) (st : St) :
     Except.bind, StateT.pure]
   have h0 : Rep (.int 0) (.num ((0 : Int) : Rat)) := Rep.int 0
   have hz : (0 : Rat) - a = -a := by grind
-  simp [runtimeSub, arith_rep _ _ x _ a h0 hx, ofOpt, pure, StateT.pure, Except.pure, hz]
+  simp [runtimeSub, arith_rep _ _ _ _ x _ a (hasCase_rep _ x _ a h0 hx).1 h0 hx, ofOpt, pure, StateT.pure, Except.pure, hz]
 
 theorem call_mul (x y : Val) (a b : Rat) (hx : Rep x (.num a)) (hy : Rep y (.num b)) (st : St) :
     callBuiltin "__op__mul" [x, y] st = .ok (.N (a * b), st) := by
   have hi : helperImpl "__op__mul" = some "runtimeMul" := by decide
   simp only [callBuiltin, hi, bind, StateT.bind, getHeap, get, getThe, MonadStateOf.get, StateT.get, pure, Except.pure,
     Except.bind, StateT.pure]
-  simp [runtimeMul, arith_rep _ x y a b hx hy, ofOpt, pure, StateT.pure, Except.pure]
+  simp [runtimeMul, arith_rep _ _ _ x y a b (hasCase_rep x y a b hx hy).2.1 hx hy, ofOpt, pure, StateT.pure, Except.pure]
 
 theorem call_div (x y : Val) (a b : Rat) (hb : b ≠ 0) (hx : Rep x (.num a)) (hy : Rep y (.num b)) (st : St) :
     callBuiltin "__op__slash" [x, y] st = .ok (.N (a / b), st) := by
   have hi : helperImpl "__op__slash" = some "runtimeQuo" := by decide
   simp only [callBuiltin, hi, bind, StateT.bind, getHeap, get, getThe, MonadStateOf.get, StateT.get, pure, Except.pure,
     Except.bind, StateT.pure]
-  simp [runtimeQuo, arith_rep _ x y a b hx hy, ofOpt, pure, StateT.pure, Except.pure, hb]
+  simp [runtimeQuo, arith_rep _ _ _ x y a b (hasCase_rep x y a b hx hy).2.2.1 hx hy, ofOpt, pure, StateT.pure, Except.pure, hb]
 
 theorem rem_rep (x y : Val) (a b : Rat) (hx : Rep x (.num a)) (hy : Rep y (.num b)) :
     runtimeRem x y = (if Fn.ratTrunc b == 0 then none else some (.N (goRem (Fn.ratTrunc a) (Fn.ratTrunc b)))) := by
-  cases hx <;> cases hy <;> simp [runtimeRem, Val.kind, Val.num?]
+  unfold runtimeRem
+  rw [arith_rep _ _ _ x y a b (hasCase_rep x y a b hx hy).2.2.2 hx hy]
+  by_cases h : Fn.ratTrunc b = 0 <;> simp [h]
 
 theorem call_mod (x y : Val) (a b r : Rat) (hr : jsRem a b = some r) (hx : Rep x (.num a)) (hy : Rep y (.num b)) (st : St) :
     callBuiltin "__op__mod" [x, y] st = .ok (.N r, st) := by
